@@ -2,10 +2,11 @@
 import itertools
 
 from kv import Case, xn, xb, xl, xlist, xopt, xbool, xparse, xtext
+import pipe
 
 ID = "C15"
 MODULE = "C15"
-IMPORTS = "Bytes Hosts HostsProofs"
+IMPORTS = "Bytes CacheX HostsPipe HostsPipeProofs Hosts HostsProofs"
 PROFILES = ("dev",)
 LOOKUP = "hosts.lookup"        # model component compared with the implementation (V1 = repaired code)
 MS = "St Req Rep Adm serve admin route targets refuse"
@@ -87,6 +88,34 @@ THEOREMS = [
      "forall (ops : list op) (reqs reqs' : list wreq) (st st' : nat -> hstate) (i : nat), st i = st' i -> "
      "filter (wire_routed_to ops i) reqs = filter (wire_routed_to ops i) reqs' -> "
      "wire_replies_for ops i reqs (wire_spec ops st reqs) = wire_replies_for ops i reqs' (wire_spec ops st' reqs')"),
+    ("multi_host_pipeline_eq_projection",
+     "forall (ops : list Hosts.op) (c : collection) (cfgs : list configx) (es : list pevent) (st : nat -> pstate) (i : nat), "
+     "build ops = Ok c -> Forall wf_pevent es -> "
+     "fst (prun cfgs (proute c) (ptargets c) st es) i = fst (srun pstate preq prep padm (pserve cfgs) padmin i (st i) "
+     "(filter (concerns preq padm (spec_proute ops) (spec_ptargets ops) i) es)) /\\ "
+     "replies_for preq prep padm (spec_proute ops) (spec_ptargets ops) i es (snd (prun cfgs (proute c) (ptargets c) st es)) "
+     "= snd (srun pstate preq prep padm (pserve cfgs) padmin i (st i) (filter (concerns preq padm (spec_proute ops) (spec_ptargets ops) i) es))"),
+    ("multi_host_pipeline_eq_spec",
+     "forall (ops : list Hosts.op) (c : collection) (cfgs : list configx) (es : list pevent) (st : nat -> pstate), "
+     "build ops = Ok c -> Forall wf_pevent es -> "
+     "snd (prun cfgs (proute c) (ptargets c) st es) = snd (prun cfgs (spec_proute ops) (spec_ptargets ops) st es)"),
+    ("host_alone_is_cache_pipeline",
+     "forall (cfgs : list configx) (i : nat) (es : list pevent) (s : statex (list N)) (now : N), "
+     "fst (srun pstate preq prep padm (pserve cfgs) padmin i (s, now) es) = runX_state (list N) "
+     "(compute_x (cf_default_ext (cx_base (cfg_of cfgs i))) (cf_handlers (cx_base (cfg_of cfgs i))) (cx_xhandlers (cfg_of cfgs i))) "
+     "(cf_cache (cx_base (cfg_of cfgs i))) (cf_ims (cx_base (cfg_of cfgs i))) "
+     "(cx_fix_vary (cfg_of cfgs i)) (cx_fix_ovkey (cfg_of cfgs i)) (cx_fix_clear (cfg_of cfgs i)) (cx_fix_svary (cfg_of cfgs i)) "
+     "(cx_fix_qmkey (cfg_of cfgs i)) (cx_fix_ims (cfg_of cfgs i)) (sfilter_fix (cx_sfilter (cfg_of cfgs i))) parse_ims_fix sanitize_ok_fix "
+     "(if cf_default_ext (cx_base (cfg_of cfgs i)) then uri_redirect else (fun r => r)) "
+     "(override_x (cf_default_ext (cx_base (cfg_of cfgs i))) (cx_ovprime (cfg_of cfgs i))) (fun _ _ => None) "
+     "(vary_tuple_x (cx_fix_ovkey (cfg_of cfgs i)) (cf_vary (cx_base (cfg_of cfgs i)))) "
+     "(vary_header_x (cx_fix_ovkey (cfg_of cfgs i)) (cf_vary (cx_base (cfg_of cfgs i)))) clear_alias_fix s now (map to_opx es)"),
+    ("clear_all_targets_eq",
+     "forall (ops : list Hosts.op) (c : collection) (flt : option bytes) (i : nat), build ops = Ok c -> "
+     "(In i (map hid (clear_all_targets c flt)) <-> cleared_by_all ops flt i = true)"),
+    ("clear_page_target_eq",
+     "forall (ops : list Hosts.op) (c : collection) (name : bytes), build ops = Ok c -> "
+     "omap hid (clear_target V1 c name) = Ok (clear_reference ops name)"),
     ("absent_host_refuted",
      "forall auth_ok : bytes -> bool, exists ops c r, build ops = Ok c /\\ "
      "wire_history auth_ok snapshot c (fun _ => hstate0) [r] = [Ok WClosed] /\\ "
@@ -341,6 +370,92 @@ def wire_corpus():
     return out
 
 
+# ---- the multi-host collection over the fixture pipeline (hosts.pipe) -----------------------------------
+PPATHS = [b"/p", b"/q", b"/v", b"/nohandler"]
+PQUERIES = [None, None, b"x=1", b"x=2"]
+PREPORT = [b"vary", b"x-h"]
+
+
+def pipe_cfg(rng, idx, same):
+    """the pipeline of one host; `same`: every host gets the same handlers (identical paths, identical bodies)"""
+    tag = b"" if same else b"%d" % idx
+    hs = [pipe.H(b"/p", kind=2, body=b"n" + tag + b"=", spref=rng.choice([2, 2, 1, 0]), cpref=rng.choice([0, 3]), headers=[(b"x-h", b"p" + tag)]),
+          pipe.H(b"/q", kind=rng.choice([1, 2, 4]), body=b"q" + tag + b":", spref=rng.choice([1, 2, 2]), cpref=0, headers=[(b"x-h", b"q" + tag)])]
+    kw = dict(cache=rng.random() < 0.85, default_ext=rng.random() < 0.25, disable_ims=rng.random() < 0.1, handlers=hs,
+              report=[xb(r) for r in PREPORT])
+    if rng.random() < 0.5:
+        tup = [(b"x-v", rng.choice([0, 1]), b"dv")]
+        hs.append(pipe.H(b"/v", kind=3, body=b"V" + tag, spref=2, tuple_=tup, cpref=0))
+        kw["vary"] = [pipe.vary_rule(b"/v", tup)]
+    return pipe.cfg(**kw)
+
+
+def pipe_event(rng, configured, p0):
+    r = rng.random()
+    names = configured + [b"unknown.test", b"localhost", b"default", b"", b"a.test."]
+    if r < 0.74:
+        path = p0 if rng.random() < 0.55 else rng.choice(PPATHS)
+        q = rng.choice(PQUERIES)
+        t = path + (b"?" + q if q is not None else b"")
+        f = rng.random()
+        h = rng.choice(configured)
+        hh = [h] if f < 0.7 else [h + b"."] if f < 0.76 else [rng.choice([b"unknown.test", b"localhost", b"127.0.0.1:80", b"[::1]"])] if f < 0.9 \
+            else [] if f < 0.94 else [rng.choice(configured), rng.choice(configured)]
+        sni = None if rng.random() < 0.85 else rng.choice(configured + [b"unknown.test"])
+        hdrs = []
+        if rng.random() < 0.3:
+            hdrs.append((b"accept-encoding", rng.choice([b"gzip", b"br", b"identity"])))
+        if rng.random() < 0.15:
+            hdrs.append((b"if-modified-since", rng.choice([b"@T+60", b"@T+60", b"@T-60"])))
+        if path == b"/v" and rng.random() < 0.8:
+            hdrs.append((b"x-v", rng.choice([b"a", b"B", b"zz"])))
+        method = rng.choice([b"GET"] * 6 + [b"HEAD", b"POST"])
+        return xl(xn(0), xopt(None if sni is None else xb(sni)), xlist([xb(x) for x in hh]), xn(rng.randrange(1, 4)), xb(method), xb(t),
+                  xlist([xl(xb(k), xb(v)) for k, v in hdrs]), xb(b""))
+    if r < 0.88:
+        q = rng.choice(PQUERIES)
+        return xl(xn(1), xb(rng.choice(names)), xb(rng.choice(PPATHS[:3]) + (b"?" + q if q is not None else b"")))
+    return xl(xn(2), xopt(None if rng.random() < 0.3 else xb(rng.choice(names))))
+
+
+def pipe_case(rng, kind, n=None):
+    pool = NAMES + [b"d.test", b"localhost"]
+    ops = random_ops(rng, pool)
+    while len(ops) < 2 or sum(1 for o in ops if o[0]) > 1:
+        ops = random_ops(rng, pool)
+    configured = sorted({x for _, nm, alts in ops for x in [nm] + list(alts)})
+    same = rng.random() < 0.6
+    cfgs = [pipe_cfg(rng, i, same) for i in range(len(ops))]
+    p0 = rng.choice(PPATHS[:3])
+    events = [pipe_event(rng, configured, p0) for _ in range(n or rng.randint(10, 18))]
+    return Case("hosts.pipe", xl(x_ops(ops), xlist(cfgs), xlist(events)), "hosts.pipe_spec", {"kind": kind}, "dev")
+
+
+def pipe_corpus():
+    ab = [(False, b"a.test", [b"www.a.test"]), (False, b"b.test", [])]
+    abd = [(False, b"a.test", [b"www.a.test"]), (True, b"b.test", [b"c.test"])]
+    cfg = pipe.cfg(cache=True, handlers=[pipe.H(b"/p", kind=2, body=b"n=", spref=2)], report=[xb(r) for r in PREPORT])
+
+    def get(h, t=b"/p", sni=None, method=b"GET", hdrs=()):
+        return xl(xn(0), xopt(None if sni is None else xb(sni)), xlist([xb(x) for x in h]), xn(1), xb(method), xb(t),
+                  xlist([xl(xb(k), xb(v)) for k, v in hdrs]), xb(b""))
+
+    def clear(name, t=b"/p"):
+        return xl(xn(1), xb(name), xb(t))
+
+    def clear_all(f):
+        return xl(xn(2), xopt(None if f is None else xb(f)))
+    out = []
+    for ops in (ab, abd):
+        ev = [get([b"a.test"]), get([b"b.test"]), get([b"www.a.test"]), clear_all(b"a.test"), get([b"a.test"]), get([b"b.test"]),
+              clear(b"b.test"), get([b"b.test"]), get([b"a.test"]), clear(b"default"), clear(b""), get([b"b.test"]), clear(b"www.a.test"),
+              get([b"a.test"]), clear_all(b"www.a.test"), get([b"a.test"]), clear_all(b"unknown.test"), get([b"b.test"]), clear(b"a.test."),
+              get([b"a.test"]), clear_all(None), get([b"a.test"]), get([b"b.test"]), get([b"a.test"], sni=b"b.test"),
+              get([b"b.test"], hdrs=[(b"if-modified-since", b"@T+60")]), get([b"a.test"], method=b"POST"), get([b"b.test"], method=b"HEAD")]
+        out.append(Case("hosts.pipe", xl(x_ops(ops), xlist([cfg, cfg]), xlist(ev)), "hosts.pipe_spec", {"kind": "pipe-corpus"}, "dev"))
+    return out
+
+
 def generate(rng, tier):
     cases = []
     # ---- corpus: the defects found while building this property
@@ -365,7 +480,7 @@ def generate(rng, tier):
         for _ in range(6000):
             hosts = [rng.choice(menu) for _ in range(4)]
             cases.append(lookup_case(rng.choice(with_defaults(hosts)), rng, "sampled-4"))
-        nrand, nconn = 6000, 600
+        nrand, nconn, npipe = 6000, 600, 1500
     else:
         for hosts in itertools.product(menu, repeat=1):
             for ops in with_defaults(hosts):
@@ -374,7 +489,7 @@ def generate(rng, tier):
             k = rng.choice([2, 2, 3, 3, 4])
             hosts = [rng.choice(menu) for _ in range(k)]
             cases.append(lookup_case(rng.choice(with_defaults(hosts)), rng, "sampled-%d" % k))
-        nrand, nconn = 500, 70
+        nrand, nconn, npipe = 500, 70, 150
     pool = NAMES + EXTRA_NAMES
     for _ in range(nrand):
         cases.append(lookup_case(random_ops(rng, pool), rng, "random"))
@@ -382,6 +497,10 @@ def generate(rng, tier):
     cases += wire_corpus()
     for _ in range(nconn):
         cases.append(random_wire_case(rng, "history"))
+    # ---- (c) multi-host collections over the fixture pipeline: requests, clear_page, clear_response_caches
+    cases += pipe_corpus()
+    for _ in range(npipe):
+        cases.append(pipe_case(rng, "pipe"))
     return cases
 
 
@@ -397,6 +516,8 @@ R409 = ("L", [("N", 0), ("L", [("N", 409)])])
 
 
 def spec_ok(c, i, s):
+    if c.comp == "hosts.pipe":
+        return i == s
     if c.comp == "hosts.wire":
         xi, xs = xparse(i), xparse(s)
         if xi[0] != "L" or xs[0] != "L" or len(xs[1]) != 3 or len(xi[1]) != 2:
@@ -427,11 +548,14 @@ def spec_ok(c, i, s):
         if b == ("L", []):
             continue             # no specified answer for this query kind
         kind, want = b[1][0][1], b[1][1]
-        if kind == 0:
-            got = a[1][1] if a[1][0] == ("N", 0) and len(a[1]) == 2 else None
+        if kind in (0, 1, 2, 3, 4):
+            # Ok (option (id, name)): the id
+            got = a[1][1] if a[0] == "L" and len(a[1]) == 2 and a[1][0] == ("N", 0) else None
             if got is None:
                 return False
             got = ("L", [got[1][0][1][0]]) if got[1] else ("L", [])
+        elif kind == 5:
+            got = a
         else:
             if not (a[1][0] == ("N", 0) and len(a[1]) == 2):
                 return False
